@@ -201,3 +201,18 @@ def ping_untouched_by_handler(self: Ref['mqtt.client.pubsubs.MQTTProtocol']) -> 
     return (unchanged(self._pingReq.alarm)
             and implies(old(is_ref(self._pingReq.alarm)),
                         unchanged(self._pingReq.alarm.t_status, self._pingReq.alarm.t_fn, self._pingReq.alarm.t_owner, self._pingReq.alarm.t_arg)))
+
+
+@spec
+def lost_state(self: Ref['mqtt.client.pubsubs.MQTTProtocol']) -> bool:
+    """the post-state of connectionLost (specs/loss.py) as far as the containers go"""
+    return (is_obj(self.addr) and inv(self)
+            and forall(lambda k: implies(contains(W(self), k), is_none(W(self)[k].alarm)))
+            and forall(lambda k: implies(contains(R(self), k), is_none(R(self)[k].alarm)))
+            and forall(lambda k: not contains(S(self), k)) and forall(lambda k: not contains(U(self), k)))
+
+
+@spec
+def no_new_fired() -> bool:
+    """no Deferred that existed before has fired during this step"""
+    return forall(lambda d: implies(old(is_bool(obj_at(d).d_fired) and not obj_at(d).d_fired), unchanged(obj_at(d).d_fired)))
